@@ -120,13 +120,15 @@ Definition po_as_json_patch (diff : json -> json -> list jop) (fns : list pfn) (
   | None => match fns with [] => Ok [] | _ => ErrValue end
   end.
 
-(* body_patch / status_patch of patch_obj *)
+(* body_patch / status_patch of patch_obj:
+     has_status = as_subresource and 'status' in body_patch        (incl. None, which removes the status)
+     status_patch = {'status': body_patch.pop('status')} if has_status else None *)
 Definition po_split (has_sub : bool) (patch : obj) : obj * option json :=
   if has_sub then
     (del "status" patch,
      match lookup "status" patch with
-     | Some JNull | None => None                         (* pop(..., None); `is not None` *)
      | Some v => Some (JObj [("status", v)])
+     | None => None
      end)
   else (patch, None).
 
